@@ -17,6 +17,13 @@ populated after a synchronous command; WouldBlock (reads past the last owed repl
 whose command it has not flushed); tail consumed or owed replies left unread; LMTP end-of-data replies
 paired with the wrong recipients; a command flushed while an earlier reply is still unread although
 PIPELINING is not in effect (documented: "populated immediately").
+
+Unencodable addresses: mailfrom()/rcptto() with a non-ASCII address while SMTPUTF8 is not in effect may refuse
+by raising UnicodeEncodeError (the statement does not regulate that), but then nothing may have been sent and
+no reply may be owed for the call: the script has no reply for it, so every oracle above applies unchanged to
+the commands that follow. A run whose refused call left the owed-reply queue longer than it found it and that
+then violates any oracle is reported once, as phantom-owed-reply-after-unencodable-address/<smtp|lmtp>/<op>.
+With SMTPUTF8 in effect the command must carry the address UTF-8 encoded and pairs like any other.
 """
 import re
 import random
@@ -32,7 +39,8 @@ LEVEL_TEXT = ('Real Client and LmtpClient driven through generated command seque
               'server on a scripted socket: exhaustive reply-class assignment ({2,3,4,5}xx)^5 over the transaction '
               'MAIL, RCPT, RCPT, DATA, end-of-data|RSET x PIPELINING advertised or not x SMTP/LMTP x content/empty '
               'content x 2 line-count patterns, plus seeded random multi-transaction sequences (0..4 recipients, '
-              'custom commands, unsolicited replies, failed greetings, missing RSET); each under whole / bytewise / '
+              'custom commands, unsolicited replies, failed greetings, missing RSET, non-ASCII addresses with '
+              'SMTPUTF8 advertised or not), and a designed stratum of 1 280 non-ASCII-address scripts; each under whole / bytewise / '
               'per-reply / seeded delivery of the reply stream. Pairing, exact consumption and lock-step judged on '
               'every run. Held = held on the runs reported.')
 LEVEL_NOTE = ('Trusted: ScriptSocket, ReplyServer (command/content splitter and release rule, 70 lines), the '
@@ -43,7 +51,11 @@ RULE = ('case = one command sequence with its reply script (code and 1..3 lines 
         'or not, SMTP or LMTP); each of 5 deliveries of the reply stream (whole, bytewise, per reply, 2 seeded) is '
         'one evaluation. exh: every class assignment in {2,3,4,5}^5 to MAIL, RCPT, RCPT, DATA and (end-of-data '
         'if DATA got 3xx else RSET) x pipelining x client class x (send_data|send_empty_data) x 2 line-count '
-        'patterns; rand: seeded sequences of 1..3 transactions in protocol shape with deviations. non-trivial & '
+        'patterns; utf8: non-ASCII address in MAIL / first RCPT / second RCPT / both RCPT / MAIL and RCPT x '
+        'SMTPUTF8 advertised or not x PIPELINING x client class x MAIL class {2,5} x RCPT classes {2,5}^2 x '
+        '(send_data|send_empty_data) x 2 line-count patterns, followed by a plain second transaction; rand: '
+        'seeded sequences of 1..3 transactions in protocol shape with deviations (8% of addresses non-ASCII, '
+        'SMTPUTF8 advertised in 45%). non-trivial & '
         'distinct = distinct script with (an error-class reply before the last command and a multi-line reply) or '
         'LMTP with mixed recipient acceptance')
 ASSUMPTIONS = ['ScriptSocket hands out exactly the scripted segments',
@@ -52,9 +64,11 @@ ASSUMPTIONS = ['ScriptSocket hands out exactly the scripted segments',
                'LMTP script model: the accepted-recipient list is cleared by a 2xx LHLO, RSET or MAIL and after '
                'end-of-data; RSET and LHLO are answered 2xx (250 for LHLO) whenever another LMTP transaction '
                'follows',
-               'the client learns PIPELINING only from a 250 EHLO/LHLO reply']
+               'the client learns PIPELINING and SMTPUTF8 only from a 250 EHLO/LHLO reply',
+               'a non-ASCII address without SMTPUTF8 in effect is refused by the client (UnicodeEncodeError); a '
+               'client that sent something instead makes the run inconclusive, not violated']
 REQUIRED_HITS = ['reply-paired', 'tail-compared', 'pipelined-batch', 'lockstep-checked',
-                 'lmtp-data-replies-paired']
+                 'lmtp-data-replies-paired', 'unencodable-address-refused', 'utf8-address-sent-as-utf8']
 SHARDS = {'quick': 12, 'thorough': 16}
 BUDGET = {'quick': 60, 'thorough': 900}
 EXHAUSTIVE = {'quick': False, 'thorough': False}
@@ -72,16 +86,20 @@ CONTENTS = [
 TAIL = b'421 4.4.2 unsolicited tail\r\n'
 MODES = ['whole', 'byte', 'reply', 'rand', 'rand']
 MARK = re.compile(r'r(\d+)x')
+UTF8_SENDERS = ['sénder%d@x.test', 'ユーザー%d@x.test']
+UTF8_RCPTS = ['rçpt%d@x.test', 'r%d@bücher.test', '\U0001F600%d@x.test']
 SYNC_OPS = ('banner', 'ehlo', 'lhlo', 'helo', 'data', 'rset', 'quit', 'custom', 'get_reply')
 
 
 # ------------------------------------------------------------------ generators
-def op(name, code, nl=1, arg=None, adv=False, codes=None):
+def op(name, code, nl=1, arg=None, adv=False, codes=None, utf8=False):
     d = {'op': name, 'code': code, 'nl': nl}
     if arg is not None:
         d['arg'] = arg
     if name in ('ehlo', 'lhlo'):
         d['adv'] = adv
+        if utf8:
+            d['utf8'] = True
     if codes is not None:
         d['codes'] = codes
     return d
@@ -110,9 +128,46 @@ def gen_exhaustive(seed):
                         yield {'kind': 'exh', 'lmtp': lmtp, 'ops': ops, 'rs': seed}
 
 
+def gen_utf8(seed):
+    """Designed stratum: which of MAIL / RCPT / RCPT carries a non-ASCII address x SMTPUTF8 advertised or not."""
+    for lmtp in (False, True):
+        for adv in (True, False):
+            for utf8 in (False, True):
+                for who in ((1, 0, 0), (0, 1, 0), (0, 0, 1), (0, 1, 1), (1, 1, 0)):
+                    for mc, c0, c1 in itertools.product((2, 5), repeat=3):
+                        for empty in (False, True):
+                            for pat in (0, 1):
+                                nls = [1 + (i + pat) % 3 for i in range(13)]
+                                addr = [(UTF8_SENDERS[pat] if who[0] else 's%d@x.test') % 0,
+                                        (UTF8_RCPTS[pat] if who[1] else 'r%d@x.test') % 0,
+                                        (UTF8_RCPTS[pat + 1] if who[2] else 'r%d@x.test') % 1]
+                                codes = [CLASS_CODE[2 + (c0 + pat) % 4], CLASS_CODE[2]]
+                                ops = [op('banner', '220', nls[0]),
+                                       op('lhlo' if lmtp else 'ehlo', '250', nls[1], arg='me.test', adv=adv, utf8=utf8),
+                                       op('mail', CLASS_CODE[mc], nls[2], arg=addr[0]),
+                                       op('rcpt', CLASS_CODE[c0], nls[3], arg=addr[1]),
+                                       op('rcpt', CLASS_CODE[c1], nls[4], arg=addr[2]),
+                                       op('data', '354', nls[5]),
+                                       op('send_empty_data' if empty else 'send_data', codes[0], nls[6],
+                                          arg=pat, codes=codes),
+                                       op('mail', '250', nls[7], arg='s2@x.test'),
+                                       op('rcpt', '250', nls[8], arg='r2@x.test'),
+                                       op('data', '354', nls[9]),
+                                       op('send_data', '250', nls[10], arg=0, codes=['250']),
+                                       op('quit', '221', nls[11])]
+                                yield {'kind': 'utf8', 'lmtp': lmtp, 'ops': ops, 'rs': seed}
+
+
 def gen_random(rnd):
     lmtp = rnd.random() < 0.45
     adv = rnd.random() < 0.6
+    utf8 = rnd.random() < 0.45
+
+    def sender(t):
+        return (rnd.choice(UTF8_SENDERS) if rnd.random() < 0.08 else 's%d@x.test') % t
+
+    def rcpt(n):
+        return (rnd.choice(UTF8_RCPTS) if rnd.random() < 0.08 else 'r%d@x.test') % n
 
     def cls(weights):
         return rnd.choice(CODES[rnd.choices((2, 3, 4, 5), weights)[0]])
@@ -123,7 +178,7 @@ def gen_random(rnd):
     hello_code = rnd.choices(['250', rnd.choice(CODES[2]), cls((0, 0, 50, 50))], (85, 5, 10))[0]
     if lmtp:
         hello_code = '250'
-    ops.append(op('lhlo' if lmtp else 'ehlo', hello_code, nl(), arg='me.test', adv=adv))
+    ops.append(op('lhlo' if lmtp else 'ehlo', hello_code, nl(), arg='me.test', adv=adv, utf8=utf8))
     if not lmtp and hello_code[0] != '2':
         ops.append(op('helo', cls((90, 0, 5, 5)), nl(), arg='me.test'))
     nr = 0
@@ -133,10 +188,11 @@ def gen_random(rnd):
         if rnd.random() < 0.06:
             ops.append(op('get_reply', cls((30, 0, 60, 10)), nl()))
         if not lmtp and rnd.random() < 0.05:
-            ops.append(op('ehlo', '250', nl(), arg='again.test', adv=rnd.random() < 0.5))
-        ops.append(op('mail', cls((70, 4, 13, 13)), nl(), arg='s%d@x.test' % t))
+            ops.append(op('ehlo', '250', nl(), arg='again.test', adv=rnd.random() < 0.5,
+                          utf8=rnd.random() < 0.5))
+        ops.append(op('mail', cls((70, 4, 13, 13)), nl(), arg=sender(t)))
         for i in range(rnd.choice((0, 1, 1, 2, 2, 3, 4))):
-            ops.append(op('rcpt', cls((55, 5, 20, 20)), nl(), arg='r%d@x.test' % nr))
+            ops.append(op('rcpt', cls((55, 5, 20, 20)), nl(), arg=rcpt(nr)))
             nr += 1
             if rnd.random() < 0.05:
                 ops.append(op('custom', cls((70, 10, 10, 10)), nl(), arg='NOOP'))
@@ -157,7 +213,7 @@ def gen_random(rnd):
 
 def gen_cases(tier, seed, shard, nshards):
     n = 0
-    for case in gen_exhaustive(seed):
+    for case in itertools.chain(gen_utf8(seed), gen_exhaustive(seed)):
         if n % nshards == shard:
             yield case
         n += 1
@@ -168,18 +224,19 @@ def gen_cases(tier, seed, shard, nshards):
 
 # ------------------------------------------------------------------ the plan: script + expectations
 class Entry(object):
-    __slots__ = ('k', 'need', 'code', 'nl', 'op', 'addr', 'wire', 'hello', 'adv')
+    __slots__ = ('k', 'need', 'code', 'nl', 'op', 'addr', 'wire', 'hello', 'adv', 'utf8')
 
 
 def make_wire(e):
     if e.hello and e.code == '250':
         lines = ['r%dx hello' % e.k] + (['PIPELINING'] if e.adv else []) + \
-                ['X-EXT%d r%dx' % (j, e.k) for j in range(e.nl - 1)] + ['8BITMIME']
+                ['X-EXT%d r%dx' % (j, e.k) for j in range(e.nl - 1)] + ['8BITMIME'] + \
+                (['SMTPUTF8'] if e.utf8 else [])
     else:
         who = ' for=<%s>' % e.addr if e.addr else ''
         lines = ['r%dx %s%s l%d' % (e.k, e.op, who, j) for j in range(e.nl)]
     return ''.join('%s%s%s\r\n' % (e.code, '-' if j < len(lines) - 1 else ' ', ln)
-                   for j, ln in enumerate(lines)).encode('ascii')
+                   for j, ln in enumerate(lines)).encode('utf-8')
 
 
 def build_plan(case):
@@ -188,6 +245,9 @@ def build_plan(case):
     lmtp = case['lmtp']
     entries, per_op, verbs, must_sync, content_units, data3, piped = [], [], {}, {}, set(), set(), {}
     units, accepted, adv_eff, flags = 0, [], False, set()
+    # non-ASCII addresses: ops the client is expected to refuse (no command, no reply), units whose command line
+    # must carry the address UTF-8 encoded
+    utf8_eff, refused, utf8_units, op_unit = False, set(), {}, []
     # classification aid only (never part of a verdict): recipients answered 2xx since the last LHLO-250 / RSET /
     # end-of-data, i.e. including those of a transaction the server dropped when it accepted a new MAIL
     unreset, stale_ops = [], {}
@@ -195,7 +255,7 @@ def build_plan(case):
     def add(o, code, need, addr=None, hello=False):
         e = Entry()
         e.k, e.need, e.code, e.nl, e.op, e.addr = len(entries), need, code, o['nl'], o['op'], addr
-        e.hello, e.adv = hello, bool(o.get('adv'))
+        e.hello, e.adv, e.utf8 = hello, bool(o.get('adv')), bool(o.get('utf8'))
         e.wire = make_wire(e)
         entries.append(e)
         return e.k
@@ -204,8 +264,19 @@ def build_plan(case):
         name, code = o['op'], o['code']
         if name in ('banner', 'get_reply'):
             per_op.append([add(o, code, units)])
+            op_unit.append(None)
             continue
+        if name in ('mail', 'rcpt') and not o['arg'].isascii():
+            if not utf8_eff:
+                refused.add(len(per_op))
+                per_op.append([])
+                op_unit.append(None)
+                flags.add('unencodable-address-%s' % name)
+                continue
+            utf8_units[units + 1] = o['arg'].encode('utf-8')
+            flags.add('utf8-address-%s' % name)
         units += 1
+        op_unit.append(units)
         must_sync[units] = not adv_eff
         piped[units] = adv_eff
         if name in ('send_data', 'send_empty_data'):
@@ -229,6 +300,7 @@ def build_plan(case):
         per_op.append([add(o, code, units, hello=name in ('ehlo', 'lhlo'))])
         if name in ('ehlo', 'lhlo') and code == '250':
             adv_eff = bool(o['adv'])
+            utf8_eff = bool(o.get('utf8'))
             accepted, unreset = [], []
         elif name == 'rcpt':
             if code[0] == '2':
@@ -248,7 +320,7 @@ def build_plan(case):
                 flags.add('lmtp-mixed-acceptance')
     return {'entries': entries, 'per_op': per_op, 'verbs': verbs, 'must_sync': must_sync,
             'content_units': content_units, 'data3': data3, 'flags': flags, 'piped': piped,
-            'stale_ops': stale_ops}
+            'stale_ops': stale_ops, 'refused': refused, 'utf8_units': utf8_units, 'op_unit': op_unit}
 
 
 # ------------------------------------------------------------------ scripted peer
@@ -267,6 +339,7 @@ class ReplyServer(object):
         self.buf = b''
         self.in_data = False
         self.seen = []               # verbs / b'<content>' per unit
+        self.lines = {}              # unit -> raw command line
         self.batches = []            # units completed per sendall
         self.early = []              # units that arrived while earlier replies were still unread
         self.sync_checked = 0
@@ -294,6 +367,7 @@ class ReplyServer(object):
                 self.units += 1
                 verb = line.split(b' ')[0].upper()
                 self.seen.append(verb)
+                self.lines[self.units] = line
                 if verb == b'DATA' and self.units in self.plan['data3']:
                     self.in_data = True
             done += 1
@@ -375,6 +449,7 @@ def run_once(case, plan, mode, rs, R):
     returned = []            # (op index, op name, expected k, address, Reply)
     aborted = None
     STALE = 'lmtp-stale-recipients-after-mail-without-rset'
+    phantom = None           # (op index, op name) of a refused call that left a reply owed
 
     def viol(mech, what, **kw):
         kw.update({'mode': mode, 'rs': rs, 'commands_seen_by_server': list(srv.seen),
@@ -383,8 +458,27 @@ def run_once(case, plan, mode, rs, R):
 
     for i, o in enumerate(case['ops']):
         name = o['op']
+        before = (len(client.reply_queue), client.io.send_buffer.getvalue(), len(ss.sent))
         try:
             got = call(client, o)
+        except UnicodeEncodeError as ex:
+            if name not in ('mail', 'rcpt') or o['arg'].isascii():
+                raise
+            if i not in plan['refused']:
+                aborted = (i, name, 'refused-with-smtputf8')
+                viol('utf8-address-refused-although-smtputf8-in-effect/%s/%s' % (who, name),
+                     '%s(%r) raised %r although the last 250 greeting advertised SMTPUTF8' % (name, o['arg'], ex),
+                     op_index=i)
+                break
+            R.hit('unencodable-address-refused')
+            after = (len(client.reply_queue), client.io.send_buffer.getvalue(), len(ss.sent))
+            if after[1:] != before[1:]:
+                viol('bytes-sent-for-refused-address/%s/%s' % (who, name),
+                     '%s(%r) raised but wrote %r' % (name, o['arg'], after[1][len(before[1]):] or ss.sent[-1]),
+                     op_index=i)
+            if after[0] != before[0] and phantom is None:
+                phantom = (i, name)      # signature only; the verdict comes from the oracles that follow
+            continue
         except WouldBlock:
             srv.release()
             unflushed = client.io.send_buffer.getvalue()
@@ -405,6 +499,10 @@ def run_once(case, plan, mode, rs, R):
             viol('client-raises-%s/%s/%s' % (type(ex).__name__, who, name), 'client raised %r in %s' % (ex, name),
                  op_index=i)
             break
+        if i in plan['refused']:
+            # the client found a way to send the address without SMTPUTF8: outside what the script planned for
+            R.inconclusive('non-ASCII address sent without SMTPUTF8 (script assumes refusal)')
+            return [], (i, name, 'unplanned-command')
         ks = plan['per_op'][i]
         if lmtp and name in ('send_data', 'send_empty_data'):
             R.hit('lmtp-recipients-compared')
@@ -483,8 +581,27 @@ def run_once(case, plan, mode, rs, R):
             viol('reply-queue-not-drained/%s' % who, '%d reply objects still queued at the end'
                  % len(client.reply_queue))
         plan_seen = [plan['verbs'].get(u + 1, b'<content>') for u in range(srv.units)]
-        if srv.seen != plan_seen:
+        if srv.seen != plan_seen and phantom is None and not out:
             R.inconclusive('command stream differs from plan')
+    for unit, raw in plan['utf8_units'].items():
+        if unit in srv.lines:
+            if b'<' + raw + b'>' in srv.lines[unit]:
+                R.hit('utf8-address-sent-as-utf8')
+            else:
+                viol('utf8-address-not-sent-as-utf8/%s/%s' % (who, srv.seen[unit - 1].decode('latin-1')),
+                     'command %r does not carry %r' % (srv.lines[unit], raw))
+    if phantom is not None:
+        # a refused call left a reply owed; what the oracles saw from that call on is one defect
+        late = [v for v in out if v[2].get('op_index', len(case['ops'])) >= phantom[0]]
+        if late:
+            out = [v for v in out if v not in late]
+            mech, what, kw = late[0]
+            kw = dict(kw, refused_op_index=phantom[0], refused_address=case['ops'][phantom[0]]['arg'],
+                      consequences=sorted(set(v[0] for v in late)))
+            out.append(('phantom-owed-reply-after-unencodable-address/%s/%s'
+                        % (who, {'mail': 'mailfrom', 'rcpt': 'rcptto'}[phantom[1]]),
+                        '%s(%r) raised UnicodeEncodeError but left a reply owed; then: %s'
+                        % (phantom[1], case['ops'][phantom[0]]['arg'], what), kw))
     R.observe('flush-shape', tuple(srv.batches))
     return out, aborted
 
@@ -496,8 +613,9 @@ def lmtp_or_smtp_pipelining(plan, i):
 
 
 def script_shape(case, plan):
-    return tuple((o['op'], o['code'][0], o['nl']) for o in case['ops']) + \
-        (case['lmtp'], tuple(bool(o.get('adv')) for o in case['ops'] if 'adv' in o))
+    return tuple((o['op'], o['code'][0], o['nl'], i in plan['refused'], plan['op_unit'][i] in plan['utf8_units'])
+                 for i, o in enumerate(case['ops'])) + \
+        (case['lmtp'], tuple((bool(o.get('adv')), bool(o.get('utf8'))) for o in case['ops'] if 'adv' in o))
 
 
 def is_nontrivial(case, plan):
@@ -509,15 +627,6 @@ def is_nontrivial(case, plan):
 
 def run_case(case, R):
     plan = build_plan(case)
-    # unit number of every op (None for ops without a command)
-    op_unit, u = [], 0
-    for o in case['ops']:
-        if o['op'] in ('banner', 'get_reply'):
-            op_unit.append(None)
-        else:
-            u += 1
-            op_unit.append(u)
-    plan['op_unit'] = op_unit
     shape = script_shape(case, plan)
     if is_nontrivial(case, plan):
         R.nontrivial(shape)
